@@ -30,7 +30,20 @@ def check_pairs(items, res, stratum):
             if build == 'indexed' and shx is None and shy is None:
                 # scalar operands obtained by indexing an array (their raw value is a NumPy scalar or a Python int)
                 x = A.mk(fx, np, *fxm, [0, cx[0]], shape=(2,), **cfg2)[1]; y = A.mk(fx, np, *fym, [cy[0], 0], shape=(2,))[0]
+            if build == 'iterated' and shx is None and shy is None:
+                # scalar operands obtained by ITERATING over an array (for a in x / zip(x, y) / list(x))
+                x = [e for e in A.mk(fx, np, *fxm, [0, cx[0]], shape=(2,), **cfg2)][1]; y = list(A.mk(fx, np, *fym, [cy[0], 0], shape=(2,)))[0]
             z = A.do_op(fx, np, op, x, y, route)
+            if cfg2.get('array_output_type') == 'array' and isinstance(z, np.ndarray):
+                # the configuration asks for a plain array of VALUES from NumPy functions: compared with the exact results
+                bx_ = np.broadcast_to(np.array(cx, dtype=object).reshape(shx if shx is not None else ()), z.shape).reshape(-1).tolist()
+                by_ = np.broadcast_to(np.array(cy, dtype=object).reshape(shy if shy is not None else ()), z.shape).reshape(-1).tolist()
+                ex_ = [{'+': a_ + b_, '-': a_ - b_, '*': a_ * b_}[op] for a_, b_ in ((Fraction(int(a)) / Fraction(2) ** fxm[2], Fraction(int(b)) / Fraction(2) ** fym[2]) for a, b in zip(bx_, by_))]
+                got_ = [Fraction(float(v)) for v in z.reshape(-1).tolist()]
+                res.count(stratum, key=repr(full), nontrivial=True, n=len(ex_))
+                if got_ != ex_ and all(Fraction(float(e)) == e for e in ex_) and not (op == '-' and not fxm[0] and not fym[0]):      # (an unsigned difference has an unsigned format: a negative one is not representable)
+                    res.fail(full, 'C07: %s through the NumPy function with array_output_type=array does not return the exact values' % op, expected=[str(e) for e in ex_][:6], got=[str(g) for g in got_][:6])
+                continue
             zc = np.asarray(z.val)
             bx = np.broadcast_to(np.array(cx, dtype=object).reshape(shx if shx is not None else ()), zc.shape).reshape(-1).tolist()
             by = np.broadcast_to(np.array(cy, dtype=object).reshape(shy if shy is not None else ()), zc.shape).reshape(-1).tolist()
@@ -130,6 +143,7 @@ def random_items(rng, n):
         cfg_ = ({'op_method': 'repr'} if rng.random() < 0.3 else {}) | ({'_build': 'intval'} if rng.random() < 0.4 else {})
         # how an operand presents itself to NumPy (array_op_method) is a field of its own configuration: the operators compute on values in both settings
         if rng.random() < 0.3: cfg_['array_op_method'] = 'raw'
+        if rng.random() < 0.15 and '_build' not in cfg_: cfg_['array_output_type'] = 'array'      # (only the NumPy-function route looks at it)
         if rng.random() < 0.3 and '_build' not in cfg_: cfg_['_ycfg'] = {'array_op_method': 'raw'}
         items.append((op, fxm, cx, shx, fym, cy, shy, rng.choice(['operator', 'func', 'numpy']), cfg_))
     return items
